@@ -6,6 +6,7 @@ import Driver.BitmapOps
 import Driver.DimOps
 import Driver.FloatOps
 import Driver.AdaptiveOps
+import Driver.BoundedOps
 /- vdriver: reads one operation per line, prints the model's canonical result line. -/
 open Driver
 
@@ -30,7 +31,9 @@ def runLine (line : String) : String :=
                 | some r => r
                 | none => match adaptiveOp toks with
                   | some r => r
-                  | none => "bad-op"
+                  | none => match boundedOp toks with
+                    | some r => r
+                    | none => "bad-op"
 
 partial def loop (h : IO.FS.Stream) (out : IO.FS.Stream) : IO Unit := do
   let line ← h.getLine
